@@ -1,7 +1,7 @@
 (* C15 -- property theorems (statements only; proofs by [exact] of lemmas in Proofs*.v).
    All grids are arbitrary strictly increasing lists of rationals: no sign assumption anywhere. *)
 From Coq Require Import ZArith QArith Qabs List.
-From OMV Require Import Base.Val C15.Model C15.Proofs1D C15.ProofsBracket C15.ProofsND.
+From OMV Require Import Base.Val C15.Model C15.ModelFixed C15.Proofs1D C15.ProofsBracket C15.ProofsND C15.ProofsFixed.
 Import ListNotations.
 Open Scope Z_scope.
 Open Scope Q_scope.
@@ -91,3 +91,14 @@ Theorem C15_oob_present_refuted :
               oob_scan eps_present 0 [g] [[p]] = Some (0%Z, 2%Z).
 Proof. exact oob_present_refuted. Qed.
 Print Assumptions C15_oob_present_refuted.
+
+(* fixed_eq_general, one-dimensional classes: the coefficient form of Interp1DSlinear / Interp1DLagrange2 /
+   Interp1DLagrange3 (powers of x - first stencil node, Horner evaluation) is, over Q, the same function as
+   the general InterpLinear / InterpLagrange2 / InterpLagrange3 on the same cell -- every strictly
+   increasing grid, every cell index of the fixed classes (-1 below .. n-1 above the table), every table,
+   every x. *)
+Theorem C15_fixed1_eq_general : forall (m : method) (g : list Q) (idx : Z) (x : Q) (vs : list Q),
+  fixed_method m -> incr g -> (kmin m <= zlen g)%Z -> (-1 <= idx <= zlen g - 1)%Z ->
+  fixed1 m g idx x vs == interp1 m g (gen_idx idx) x vs.
+Proof. exact fixed1_eq_general. Qed.
+Print Assumptions C15_fixed1_eq_general.
